@@ -475,6 +475,16 @@ class Lowering:
             if fv is not None:
                 func = fv
                 t = ("call", func, args, kws)
+        if any(op(a) == "star" and op(a[1]) in ("tuple", "list") for a in args):
+            # f(*(a, b))  is  f(a, b)
+            flat: list = []
+            for a in args:
+                if op(a) == "star" and op(a[1]) in ("tuple", "list"):
+                    flat.extend(a[1][1])
+                else:
+                    flat.append(a)
+            args = tuple(flat)
+            t = ("call", func, args, kws)
         fname = func[1] if op(func) in ("ext", "builtin") else None
         if fname == "itertools.chain" and not kws and not any(op(a) == "star" for a in args):
             elts = []
@@ -535,6 +545,9 @@ class Lowering:
             return ("call", ("builtin", "enumerate"), (args[1],), (("start", args[0][2][0]),) if args[0][2] else ())
         if op(func) == "builtin" and fname == "sorted" and len(args) == 1 and op(args[0]) == "call" and args[0][1] == ("builtin", "sorted") and len(args[0][2]) == 1 and args[0][3] == kws:
             return args[0]  # sorting a list that was just sorted with the same key (the sort is stable and idempotent)
+        if op(func) == "builtin" and fname in ("sorted", "set", "frozenset", "sum", "min", "max", "any", "all") and len(args) >= 1 and op(args[0]) == "call" and args[0][1] in (("builtin", "list"), ("builtin", "tuple")) and len(args[0][2]) == 1 and not args[0][3]:
+            # a consumer that only enumerates its argument sees the same elements with or without a list() copy
+            return self.norm_call(("call", func, (args[0][2][0], *args[1:]), kws))
         if fname == "typing.cast" and len(args) == 2:
             return args[1]
         if fname in ("list", "dict", "set") and not args and not kws:
@@ -585,15 +598,19 @@ class Lowering:
         base = self.expr(e.value, env)
         s = e.slice
         if isinstance(s, ast.Slice):
-            return (
-                "slice",
-                base,
-                self.expr(s.lower, env),
-                self.expr(s.upper, env),
-                self.expr(s.step, env),
-            )
+            return self.mk_slice(base, self.expr(s.lower, env), self.expr(s.upper, env), self.expr(s.step, env))
         idx = self.expr(s, env)
         return self.mk_item(base, idx)
+
+    @staticmethod
+    def mk_slice(base, lo, hi, step):
+        # [e0, .., e(k-1), *rest][k:]  is a list of the elements of rest
+        if op(base) in ("list", "tuple") and is_const(lo) and isinstance(lo[1], int) and not isinstance(lo[1], bool) and lo[1] >= 0 and (hi is None or is_const(hi, None)) and (step is None or is_const(step, None)):
+            elts = base[1]
+            k = lo[1]
+            if len(elts) == k + 1 and op(elts[k]) == "star" and not any(op(x) == "star" for x in elts[:k]):
+                return ("call", ("builtin", "list"), (elts[k][1],), ())
+        return ("slice", base, lo, hi, step)
 
     @staticmethod
     def mk_item(base, idx):
@@ -601,6 +618,10 @@ class Lowering:
             elts = base[1]
             if not any(op(x) == "star" for x in elts) and -len(elts) <= idx[1] < len(elts):
                 return elts[idx[1]]
+        if op(base) in ("tuple", "list") and is_const(idx) and isinstance(idx[1], int) and not isinstance(idx[1], bool) and 0 <= idx[1] < len(base[1]):
+            # [a, b, *rest][0]: the elements in front of the first splat are where they are written
+            if not any(op(x) == "star" for x in base[1][: idx[1] + 1]):
+                return base[1][idx[1]]
         return ("item", base, idx)
 
     def _format_template(self, template: str, args, kws: dict):
@@ -867,7 +888,7 @@ class Lowering:
                 if isinstance(t, ast.Starred):
                     after = n - i - 1
                     hi = ("const", -after) if after else NONE
-                    out.append(self.bind_target(t.value, env, ("slice", value, ("const", i), hi, NONE)))
+                    out.append(self.bind_target(t.value, env, self.mk_slice(value, ("const", i), hi, NONE)))
                 elif star and i > star[0]:
                     out.append(self.bind_target(t, env, self.mk_item(value, ("const", i - n))))
                 else:
@@ -902,9 +923,24 @@ def build_property_table(model: Model) -> dict:
         low = Lowering(model, fi, fi.module)
         env = {fi.params[0].name: ("param", "$self")}
         table.setdefault(fi.name, set()).add(low.expr(body[0].value, env))
+    # a name that is ALSO a data field / instance attribute of some class of the package (a NamedTuple with a
+    # property `uri_prefix` next to Record's field `uri_prefix`) cannot be resolved by name alone
+    plain: set = set()
+    for ci in model.classes.values():
+        plain.update(k for k, (ann, _) in ci.fields.items() if ann is not None)
+    for fi in model.functions.values():
+        if fi.cls is None or not fi.self_name:
+            continue
+        if any(a in model.mro_names(fi.cls) for a in ("BaseException", "Exception", "ValueError", "KeyError", "TypeError")):
+            # what an exception object remembers (``NoCURIEDelimiterError.curie``) is read only from the bound
+            # exception in a handler - never where a reference / record is expected
+            continue
+        for n in ast.walk(fi.node):
+            if isinstance(n, ast.Attribute) and isinstance(n.ctx, ast.Store) and isinstance(n.value, ast.Name) and n.value.id == fi.self_name:
+                plain.add(n.attr)
     out = {}
     for name, terms in table.items():
-        if len(terms) == 1 and None not in terms:
+        if len(terms) == 1 and None not in terms and name not in plain:
             out[name] = next(iter(terms))
     # second pass so that properties using properties are expanded
     model._prop_cache = out  # type: ignore[attr-defined]
